@@ -39,15 +39,31 @@ func daemonMain() {
 		waitFor("daemon.release")
 	}
 	touch("daemon.done-calling", "")
+	launcher := os.Getppid()
 	err := daemon.Done()
 	touch("daemon.done-returned", fmt.Sprint(err))
+	// a daemon normally logs: once the launcher is gone, write to the inherited standard error
+	for i := 0; i < 10000 && os.Getppid() == launcher; i++ {
+		time.Sleep(time.Millisecond)
+	}
+	fmt.Fprintln(os.Stderr, "c20 daemon: log line written after Done() and after the launcher has gone")
+	touch("daemon.logged", "")
 	// keep serving until told to stop (or for a minute at most)
 	for i := 0; i < 60000 && !exists("daemon.stop"); i++ {
 		time.Sleep(time.Millisecond)
 	}
 }
 
+const badName = "c20-bad-daemon"
+
+// badMain fails before it ever calls Done(): Launch must report an error for it
+func badMain() {
+	touch("bad.started", fmt.Sprint(os.Getpid()))
+	os.Exit(3)
+}
+
 func init() {
+	daemon.Register(badName, badMain)
 	daemon.Register(name, daemonMain)
 	if daemon.Run() {
 		os.Exit(0)
@@ -93,7 +109,23 @@ func caller2(dirA, dirB string) {
 	os.Rename(filepath.Join(dirA, "result2.json.tmp"), filepath.Join(dirA, "result2.json"))
 }
 
+// caller3: a Launch that legitimately fails, then a healthy one, in the same process
+func caller3(dirBad, dirGood string) {
+	os.Setenv("GLB_VERIF_PAUSE_DIR", dirBad)
+	pidBad, errBad := daemon.Launch(badName)
+	os.Setenv("GLB_VERIF_PAUSE_DIR", dirGood)
+	pid, err := daemon.Launch(name)
+	r := map[string]any{"pidBad": pidBad, "errBad": fmt.Sprint(errBad), "pid": pid, "err": fmt.Sprint(err), "caller_pid": os.Getpid()}
+	data, _ := json.Marshal(r)
+	os.WriteFile(filepath.Join(dirGood, "result3.json.tmp"), data, 0o644)
+	os.Rename(filepath.Join(dirGood, "result3.json.tmp"), filepath.Join(dirGood, "result3.json"))
+}
+
 func main() {
+	if len(os.Args) == 4 && os.Args[1] == "caller3" {
+		caller3(os.Args[2], os.Args[3])
+		return
+	}
 	if len(os.Args) == 4 && os.Args[1] == "caller2" {
 		caller2(os.Args[2], os.Args[3])
 		return
